@@ -32,6 +32,10 @@ class CellSpanningTree(SpanningTree):
         self.edges = []
 
     def compute(self):
+        # start from empty tables, so that calling compute() again rebuilds the tree instead of appending to it
+        self.parent = [None]*len(self.mesh.cells)
+        self.children = [[] for v in self.mesh.id_cells]
+        self.edges = []
         dist_to_root = [float("inf") for v in self.mesh.id_cells]
         seen = [False for _ in self.mesh.id_cells]
         queue = deque()
